@@ -539,7 +539,8 @@ func replay(args []string) {
 		os.Exit(2)
 	}
 	var rf struct {
-		Ops []struct {
+		Family string `json:"family"`
+		Ops    []struct {
 			Kind string `json:"kind"`
 			Expr string `json:"expr"`
 			Data string `json:"data"`
@@ -548,6 +549,18 @@ func replay(args []string) {
 	if err := json.Unmarshal(b, &rf); err != nil {
 		fmt.Fprintln(os.Stderr, err)
 		os.Exit(2)
+	}
+	if rf.Family == "foreign-conv" {
+		// the document of this judge is a Go value with methods, not text: the judge itself is the replay
+		ds := judgeForeignConv()
+		for _, d := range ds {
+			fmt.Printf("%q on %s\n  impl    : %s\n  expected: %s\n", d.Expr, d.Op.Data, d.Impl, d.Model)
+		}
+		if len(ds) > 0 {
+			os.Exit(1)
+		}
+		fmt.Println("foreign-conv: every failing string conversion is an evaluation-failed fault")
+		return
 	}
 	var ops []Op
 	for i, o := range rf.Ops {
